@@ -19,6 +19,7 @@ import (
 	"time"
 
 	"github.com/vulcand/oxy/v2/forward"
+	"github.com/vulcand/oxy/v2/stream"
 )
 
 func init() {
@@ -287,12 +288,23 @@ func c08Rewrite(c *Ctx) {
 			return p
 		}
 		fwd := forward.New(k.passHost)
+		// the same forwarder behind a pass-through middleware of the library in verbose mode (it dumps every request through
+		// a Logger that really formats): used for the requests that carry X-Verbose-Front
+		verboseFront, err := stream.New(fwd, stream.Verbose(true), stream.Logger(fmtLogger{}))
+		if err != nil {
+			return nil
+		}
 		h := http.HandlerFunc(func(w http.ResponseWriter, req *http.Request) {
 			curMu.Lock()
 			b := curBackend
 			curMu.Unlock()
 			// what a balancer does: point the request at the chosen backend (a server URL with its own path)
 			req.URL = &url.URL{Scheme: "http", Host: b.l.Addr().String(), Path: "/ignored-backend-prefix"}
+			if req.Header.Get("X-Verbose-Front") != "" {
+				req.Header.Del("X-Verbose-Front")
+				verboseFront.ServeHTTP(w, req)
+				return
+			}
 			fwd.ServeHTTP(w, req)
 		})
 		netw, addr := "tcp4", "127.0.0.1:0"
@@ -442,6 +454,10 @@ func c08Rewrite(c *Ctx) {
 			rt = "http://" + hostHdr + target
 		}
 		fmt.Fprintf(&rb, "%s %s HTTP/1.1\r\nHost: %s\r\n", method, rt, hostHdr)
+		if !upgrade && i%5 == 2 {
+			rb.WriteString("X-Verbose-Front: 1\r\n")
+			c.Count("requests_behind_a_verbose_middleware", 1)
+		}
 		for _, h := range hdrs {
 			fmt.Fprintf(&rb, "%s: %s\r\n", h.k, h.v)
 		}
